@@ -97,6 +97,11 @@ claim("C15", SIM + "; oracle: binding/isolation rules evaluated on every deliver
       "trusted: harness; a well-formed message from an unknown valid instance binds an unbound conversation by design and is not counted as an attack",
       "DESIGN.md section 5 C15")
 
+claim("C16", "deterministic simulation of one negotiation per configuration; the thorough tier enumerates the whole configuration product (64 x 64 policy sets x 19 offer forms = 77 824), the quick tier samples it; oracle: executable negotiation model + byte-exact pass-through checks",
+      "Per configuration: version containment on every emitted message and offered version; the offered versions intersected with the receiver's policy decide whether and in which version a DH-Commit is sent (highest common version, at the first commitment); offers without a common version and DH-Commits of forbidden/unknown versions are not acted on; parties sharing the model's version end encrypted and can talk; with no version allowed Send/Receive return their argument byte-exact for OTR-looking and binary inputs; marker-free text is returned byte-exact in plaintext state and a tagged one with exactly the tag removed.",
+      "trusted: the negotiation model (30 lines, written from the statement); thorough = exhaustive over the stated product, quick = sample",
+      "DESIGN.md section 5 C16")
+
 _todo = "check not built yet in this session (see DESIGN.md section 12 build order)"
 for pid in [ "C11", "C12", "C13", "C14", "C15", "C16", "C18", "C19", "C20"]:
     NA[pid] = _todo
